@@ -84,6 +84,7 @@ TRANSLATORS = {
     "GenHendrix": "gen_hendrix",
     "GenForest": "gen_forest",
     "GenProbStruct": "gen_probstruct",
+    "GenPiStep": "gen_pistep",
 }
 
 
